@@ -271,6 +271,9 @@ class Renderer:
         sp = a.get("sp") or {}
         if k in ("mark", "user"):
             name = a["name"]
+            if a.get("cparams"):
+                # params computed per call: a callable that the engine resolves against context and event
+                return {"type": name, "params": (lambda args: {"computed": True})}
             if a.get("params") is not None:
                 return {"type": name, "params": copy.deepcopy(a["params"])}
             return {"type": name} if sp.get("obj") else name
